@@ -276,6 +276,16 @@ pub fn run(out_prefix: &str, shards: usize, families: &[String], seed: u64, full
                     emit(&mut out, &mut stats, &p, false);
                 }
             }
+            // alphabet sizes around powers of two (the DFA's stride is the next power of two of
+            // the number of byte classes): m single-byte patterns 0..m-1 give m+1 classes
+            "classes" | "classesbig" => {
+                let ms: &[usize] = if parts[0] == "classes" { &[1, 2, 3, 4, 5, 7, 8, 9, 15, 16, 17, 31, 32, 33] } else { &[63, 64, 65, 127, 128, 129, 254, 255] };
+                for &m in ms {
+                    let mut p: Pats = (0..m).map(|b| vec![b as u8]).collect();
+                    p.push(vec![0, 1]);
+                    emit(&mut out, &mut stats, &p, false);
+                }
+            }
             // three or four copies of one pattern together with its suffixes / the empty pattern,
             // in every position (match lists with several own entries AND inherited ones)
             "dups" => {
